@@ -21,7 +21,7 @@ WARM = None
 
 def plan(tier, seed):
     shards = []
-    for i in range(8 if tier == 'quick' else 14):
+    for i in range(8 if tier == 'quick' else 40):
         shards.append({'name': 'methods-%d' % i, 'fn': 'shard_methods', 'args': {'part': i}})
     return shards
 
